@@ -1,4 +1,5 @@
 import ElfiVerif.Proofs.Npy
+import ElfiVerif.Proofs.BufIO
 
 /-!
 # C06 — on-disk array stores keep exactly what was written, across reopen and crash
@@ -80,3 +81,54 @@ theorem crash_safe_example :
   crash_safe_example'
 
 end ElfiVerif.Npy
+
+/-! ### the buffering layer: every kill point IS a step prefix
+
+`crash_safe` quantifies over prefixes of the file steps in program order.  The theorems below say when
+that is what a killed process leaves behind: the store talks to the file through Python's buffered
+file object (`Model/BufIO.lean`); under the discipline "a write that bypasses the buffer happens only
+while no buffered write is pending" the file at ANY moment holds the effect of a prefix of the steps.
+The discipline is a checked hypothesis: it is evaluated (with this very definition, `C06.io`) on the
+event stream of the real store on every run. -/
+namespace ElfiVerif.Npy.BufIO
+open ElfiVerif.Npy ElfiVerif.BufIO
+
+/-- **A kill at any moment leaves a step prefix.**  Run any disciplined event stream from an empty
+buffer and stop after `m` events (the buffer content is lost): the file is the starting file with the
+first `k` steps, in program order, applied - for some `k` not beyond the steps issued so far. -/
+theorem buffered_kill_is_prefix (d : Disk) (evs : List IoEv) (hd : disciplined false evs = true) (m : Nat) :
+    ∃ k, k ≤ (stepsOfEvs (evs.take m)).length ∧
+      (Io.run ⟨d, []⟩ (evs.take m)).disk = d.applyAll ((stepsOfEvs evs).take k) :=
+  buffered_kill_is_prefix' d evs hd m
+
+/-- after a flush nothing is pending: the file holds every step issued so far -/
+theorem flush_reaches_disk (d : Disk) (evs : List IoEv) (hd : disciplined false evs = true) :
+    Io.run ⟨d, []⟩ (evs ++ [.flush]) = ⟨d.applyAll (stepsOfEvs evs), []⟩ :=
+  flush_reaches_disk' d evs hd
+
+/-- **Crash safety at the level of buffered IO**: if the store's file steps for `ops₂` reach the file
+through ANY disciplined event stream (whatever seeks, flushes and spontaneous spills it contains), a
+kill after any number `m` of IO events leaves a file that loads to the in-memory sequence as it was
+after `ops₁ ++ ops₂.take j` for some `j`. -/
+theorem crash_safe_buffered (b : Nat) (hb : 0 < b) (ops₁ ops₂ : List Op) (hops : OpsOK b (ops₁ ++ ops₂))
+    (hflushed : FlushedAfter b ops₁) (evs : List IoEv) (hsteps : stepsOfEvs evs = stepsOf b ops₁ ops₂)
+    (hd : disciplined false evs = true) (m : Nat) :
+    ∃ j, j ≤ ops₂.length ∧
+      npLoad (Io.run ⟨diskAfter b ops₁, []⟩ (evs.take m)).disk = some (specAfter b (ops₁ ++ ops₂.take j)).rows :=
+  crash_safe_buffered' b hb ops₁ ops₂ hops hflushed evs hsteps hd m
+
+/-- The discipline matters: rewriting the header with a positional write on the descriptor
+(`os.pwrite`) while the appended rows are still buffered puts the header on disk BEFORE the rows; a
+kill right there leaves a file numpy cannot load (header claims 6 rows, 4 present).  The same steps
+through the buffer (`seek` before the header write, as `store.py` does) load at every kill point. -/
+theorem bypass_counterexample :
+    let d : Disk := ⟨some 4, [1, 1, 2, 2]⟩
+    let bad : List IoEv := [.write (.data 4 [3, 3]), .direct (.hdr 6), .flush]
+    let good : List IoEv := [.write (.data 4 [3, 3]), .seek, .write (.hdr 6), .flush]
+    disciplined false bad = false ∧ npLoad (Io.run ⟨d, []⟩ (bad.take 2)).disk = none ∧
+    disciplined false good = true ∧
+    (List.range 5).map (fun m => npLoad (Io.run ⟨d, []⟩ (good.take m)).disk) =
+      [some [1, 1, 2, 2], some [1, 1, 2, 2], some [1, 1, 2, 2], some [1, 1, 2, 2], some [1, 1, 2, 2, 3, 3]] :=
+  bypass_counterexample'
+
+end ElfiVerif.Npy.BufIO
